@@ -148,8 +148,8 @@ pub fn ref_verify(alg_name: &str, jwk: &Value, msg: &[u8], sig: &[u8]) -> RefVer
   let y = member_bytes(jwk, "y");
   let good = match alg {
     SigAlg::Ed25519 => match x.and_then(|x| <[u8; 32]>::try_from(x).ok()) {
-      // an OKP key has no y member
-      Some(public) if jwk.get("y").is_none() => EdKey { seed: [0; 32], public }.verify(msg, sig),
+      // members that are not defined for OKP keys (a stray `y`) must be ignored (RFC 7517 section 4)
+      Some(public) => EdKey { seed: [0; 32], public }.verify(msg, sig),
       _ => false,
     },
     SigAlg::Es256 => match (x, y) {
